@@ -331,8 +331,8 @@ func firstLine(s string) string {
 	if i := strings.IndexByte(s, '\n'); i >= 0 {
 		s = s[:i]
 	}
-	if len(s) > 110 {
-		s = s[:107] + "..."
+	if r := []rune(s); len(r) > 110 {
+		s = string(r[:107]) + "..."
 	}
 	return s
 }
